@@ -11,8 +11,14 @@ pub fn self_exe() -> std::path::PathBuf {
 
 /// Runs `simctl <args...>` with `input` on stdin, returns parsed stdout JSON.
 pub fn call(args: &[&str], input: &Value) -> Result<Value, String> {
+    call_env(args, input, &[])
+}
+
+/// Like `call`, with extra environment variables for the child.
+pub fn call_env(args: &[&str], input: &Value, envs: &[(&str, String)]) -> Result<Value, String> {
     let mut child = Command::new(self_exe())
         .args(args)
+        .envs(envs.iter().map(|(k, v)| (k.to_string(), v.clone())))
         .stdin(Stdio::piped())
         .stdout(Stdio::piped())
         .stderr(Stdio::piped())
